@@ -33,6 +33,9 @@ MISUSE = [
     ("concrete-in-module-later-fn", "Foo", ["pub mod m { pub fn a(deps: &impl ::core::any::Any) {} fn p() {} pub fn b(deps:", "&u32", ") {} }"], "Using concrete dependencies in a module is an anti-pattern", 1),
     ("concrete-in-module-third-fn", "Foo", ["pub mod m { pub fn a<D>(deps: &D) {} pub fn b(deps: &impl Sized) {} pub fn c(deps:", "&u32", ") {} }"], "Using concrete dependencies in a module is an anti-pattern", 1),
     ("concrete-in-impl-later-fn", "", ["impl TrImpl for X { fn a(deps: &impl ::core::any::Any) {} fn b(deps:", "&u32", ") {} }"], "Cannot (yet) use concrete dependency in an impl block", 1),
+    ("concrete-in-module-cfg-fn", "Foo", ["pub mod m { #[cfg(all())] pub fn a(deps:", "&u32", ") {} }"], "Using concrete dependencies in a module is an anti-pattern", 1),
+    ("concrete-in-module-later-cfg-fn", "Foo", ["pub mod m { pub fn a(deps: &impl ::core::any::Any) {} #[cfg(all())] #[inline] pub fn b(deps:", "&u32", ") {} }"], "Using concrete dependencies in a module is an anti-pattern", 1),
+    ("concrete-in-impl-cfg-fn", "", ["impl TrImpl for X { #[cfg(all())] fn a(deps:", "&u32", ") {} }"], "Cannot (yet) use concrete dependency in an impl block", 1),
     ("missing-deps-in-module-later-fn", "Foo", ["pub mod m { pub fn a(deps: &impl ::core::any::Any) {} pub fn", "b", "() {} }"], MSG_DEPS, 1),
     ("self-receiver-in-impl-later-fn", "", ["impl TrImpl for X { fn a(deps: &impl ::core::any::Any) {} fn b(", "&self", ") {} }"], "Function cannot have a self receiver", 1),
     ("unknown-option-after-valid-ones", "Foo, no_deps, export = false, mock_api = M,\nbogus", ["pub fn f(deps: &()) {}"], 'Unkonwn entrait option "bogus"', -1),
@@ -72,6 +75,15 @@ MISUSE = [
     ("closure-param-types", "Foo", ["pub fn f(deps: &(), g: impl Fn(i32) -> i32, h: fn(u8), i: [u8; 2], j: *const u8, k: !) {}"], "<accepted>", None),
 ]
 
+SIGSHAPES = {
+    "p": "pub fn f{n}(deps: &impl ::core::any::Any, a: i64) -> i64 {{ a }}",
+    "w": "pub fn f{n}<T{n}>(deps: &impl ::core::any::Any, t: T{n}) -> T{n} where T{n}: Clone {{ t }}",
+    "wc": "pub fn f{n}<T{n}>(deps: &impl ::core::any::Any, t: T{n}) -> T{n} where T{n}: Clone, {{ t }}",
+    "gw": "pub fn f{n}<D, T{n}>(deps: &D, t: T{n}) -> T{n} where D: ::core::any::Any, T{n}: Clone {{ t }}",
+    "lt": "pub fn f{n}<D: 'static, T{n}>(deps: &D, t: &T{n}) -> usize where for<'x> &'x T{n}: ::core::iter::IntoIterator<Item = &'x u8> {{ t.into_iter().count() }}",
+    "lw": "pub fn f{n}<'a, T{n}: 'a>(deps: &'a impl ::core::any::Any, t: &'a T{n}) -> &'a T{n} where T{n}: 'a + Clone {{ t }}",
+    "as": "pub async fn f{n}<T{n}: Send>(deps: &impl ::core::any::Any, t: T{n}) -> T{n} where T{n}: Clone + Send {{ t }}",
+}
 PATS = {
     "id": ("p{i}", "i64"), "mut": ("mut p{i}", "i64"), "ref": ("ref p{i}", "i64"), "wild": ("_", "i64"),
     "tup": ("(p{i}a, p{i}b)", "(i64, i64)"), "ts1": ("N(p{i})", "N"), "refpat": ("&p{i}", "&i64"), "raw": ("r#match", "i64"),
@@ -114,6 +126,11 @@ def enumerate_states(tier):
                 states.append(dict(key="p_%s_%s_%s" % ("_".join(w) or "none", "body" if body else "decl", d), kind="traitpat",
                                    word=list(w), body=body, deleg=d))
                 transitions += 1
+    swords, t = common.words(list(SIGSHAPES), 3 if tier == "thorough" else 2, minlen=1)
+    for w in swords:
+        for container in ("mod", "impl"):
+            states.append(dict(key="g_%s_%s" % (container, "_".join(w)), kind="sigseq", word=list(w), container=container))
+            transitions += 1
     from . import c16
     fwords, t = common.words(c16.SYMS, 2)
     for w in fwords:
@@ -130,6 +147,15 @@ def enumerate_states(tier):
 
 def render(s):
     key = s["key"]
+    if s["kind"] == "sigseq":
+        L = ["mod %s {" % key]
+        fns = [SIGSHAPES[x].format(n=n) for n, x in enumerate(s["word"])]
+        if s["container"] == "mod":
+            L += ["    #[::entrait::entrait(pub Tr)]", "    pub mod m {"] + ["        " + f for f in fns] + ["    }"]
+        else:
+            L += ["    pub struct X;", "    #[::entrait::entrait]", "    impl TrImpl for X {"] + ["        " + f for f in fns] + ["    }"]
+        L.append("}")
+        return engine.Unit(key, "\n".join(L), None, s)
     if s["kind"] == "fnpat":
         from . import c16
         u = c16.render(dict(s))
@@ -164,7 +190,7 @@ def misuse_lines(s):
 def evaluate(states, report, tier):
     units = [render(s) for s in states]
     results = {}
-    for kind in ("attr", "misuse", "traitpat", "fnpat"):
+    for kind in ("attr", "misuse", "traitpat", "fnpat", "sigseq"):
         group = [u for s, u in zip(states, units) if s["kind"] == kind]
         if not group:
             continue
@@ -241,6 +267,8 @@ def evaluate(states, report, tier):
                 tags |= {"item:" + s["item"]} | {"tok:" + TOKENS[i] for i in s["word"]}
             elif s["kind"] == "misuse":
                 tags |= {"case:" + s["name"]}
+            elif s["kind"] == "sigseq":
+                tags |= {"sig:" + x for x in s["word"]} | {"container:" + s["container"]}
             elif s["kind"] == "fnpat":
                 tags |= {"pat:" + p for p in s["word"]} | {"ctx:" + s["ctx"], "fname:" + s["fname"]}
             else:
